@@ -69,7 +69,8 @@ fn splitmix(x: &mut u64) -> u64 {
 
 /// One measured step on a fresh environment. `layout[i]` = kind of the i-th submitted instruction
 /// (0 new ask, 1 new bid below the quote, 2 cancel of a resting order, 3 crossing re-price, 4 cancel of
-/// the most recent order created earlier in this same batch - or a new ask if there is none).
+/// the most recent order created earlier in this same batch - or a new ask if there is none, 5 cancel of an order
+/// that was already cancelled in an earlier step).
 /// Returns the processed position of every submitted instruction; `None` for a kind-4 cancel that was
 /// processed before the placement it refers to (it is then a no-op and leaves no timestamp).
 fn measured_step(n: usize, market: bool, trading: bool, step_size: u64, layout: &[u8], rng: &mut Xoroshiro128StarStar) -> Result<Vec<Option<usize>>, String> {
@@ -90,8 +91,23 @@ fn measured_step(n: usize, market: bool, trading: bool, step_size: u64, layout: 
             pool.push(id);
         }
     }
+    // orders that are already finished when the measured step begins (kind 5: a cancel of such an order is an
+    // instruction like any other - it takes its slot in the processing order although it changes nothing)
+    let mut dead: Vec<(usize, usize)> = vec![];
+    for (i, k) in layout.iter().enumerate() {
+        if *k == 5 {
+            let a = i % na;
+            dead.push(env.place_order(a, false, 1, 8, Some(MID + 12 + (i as u32 % 5))).map_err(|e| e)?);
+        }
+    }
     // spread the warm-up over several steps so that it fits the step size
     env.step(&mut warm);
+    if !dead.is_empty() {
+        for id in dead.iter() {
+            env.cancel_order(*id);
+        }
+        env.step(&mut warm);
+    }
     if !trading {
         // no-trading period: new orders and cancels still reveal their positions; a crossing
         // re-price would not trade, so it is replaced by a cancel (layout kind 3 -> 2)
@@ -101,6 +117,7 @@ fn measured_step(n: usize, market: bool, trading: bool, step_size: u64, layout: 
     // reader kind: 0 = by arrival time, 1 = by end time (must be terminal), 2 = by end time if cancelled
     let mut readers: Vec<(u8, (usize, usize))> = vec![];
     let mut p = 0;
+    let mut d = 0;
     let mut last_new: Option<(usize, usize)> = None;
     for (i, k) in layout.iter().enumerate() {
         let a = i % na;
@@ -128,6 +145,12 @@ fn measured_step(n: usize, market: bool, trading: bool, step_size: u64, layout: 
                 env.cancel_order(id);
                 readers.push((2, id));
             }
+            5 => {
+                let id = dead[d];
+                d += 1;
+                env.cancel_order(id);
+                readers.push((3, id));
+            }
             _ => {
                 let id = pool[p];
                 p += 1;
@@ -144,6 +167,9 @@ fn measured_step(n: usize, market: bool, trading: bool, step_size: u64, layout: 
     let mut pos = vec![None; n];
     let mut seen = vec![false; n];
     for (i, (kind, id)) in readers.iter().enumerate() {
+        if *kind == 3 {
+            continue; // a cancel of an order that was already finished: no timestamp
+        }
         let o = env.order(*id);
         let t = match *kind {
             0 => {
@@ -556,7 +582,7 @@ pub fn parts(tier: Tier) -> (Vec<Part<Case>>, String) {
             make: Box::new(|| {
                 (prop_oneof![4 => 2usize..=8, 1 => Just(16usize), 1 => Just(32usize), 1 => Just(64usize)], any::<bool>(), any::<u64>())
                     .prop_flat_map(|(n, market, seed)| {
-                        (proptest::collection::vec(0u8..5, n), proptest::collection::vec(0u8..5, n), 0u8..5, prop_oneof![5 => Just(1_000u64), 1 => Just(n as u64), 1 => Just(n as u64 - 1), 1 => 1u64..=(n as u64 / 2).max(1)])
+                        (proptest::collection::vec(0u8..6, n), proptest::collection::vec(0u8..6, n), 0u8..5, prop_oneof![5 => Just(1_000u64), 1 => Just(n as u64), 1 => Just(n as u64 - 1), 1 => 1u64..=(n as u64 / 2).max(1)])
                             .prop_map(move |(layout_a, layout_b, t, step_size)| Case::Shuffle(ShuffleCase::Det { n, market, seed, layout_a, layout_b, trading: t != 0, step_size }))
                     })
                     .boxed()
@@ -566,6 +592,6 @@ pub fn parts(tier: Tier) -> (Vec<Part<Case>>, String) {
     };
     (
         vec![det, uniform],
-        "Two kinds of case. (1) determinism / content independence: one generator state, one batch size, two generated batches of different content and kind layout (new asks, new bids, cancels of resting orders, crossing re-prices, cancels of an order placed earlier in the same batch) on fresh environments: the map submission index -> processed position must be identical for both batches wherever both reveal it (a same-batch cancel processed before its placement leaves no timestamp) and for a repeated run (non-trivial: batch with >= 2 instruction kinds). (2) uniformity campaign: for one (batch size, Env or MarketEnv<2>, generator freshly seeded per step or one continuing stream) the processed positions of N seeded steps are recovered from arrival / end timestamps and the count of each of the n! permutations (n <= 6), each (instruction, position) cell and each ordered pair must lie within the Bernstein deviation for alpha = 1e-9 divided by the number of campaigns, with a union bound over all cells; in addition, for windows of the first / last k = 3..10 processed positions whose number of outcomes K = n!/(n-k)! is large, the number of steps that repeat an earlier step's tuple of instructions at those positions must stay below an exact Chernoff limit (a shuffle that derives several swap indices from one generator word has too few distinct outcomes in such a window although every position and pair table is flat); half of each campaign's alpha goes to the cell tests and half to the window tests (non-trivial: campaign with mixed instruction kinds). Every step also checks that the positions are a bijection of 0..n.".to_string(),
+        "Two kinds of case. (1) determinism / content independence: one generator state, one batch size, two generated batches of different content and kind layout (new asks, new bids, cancels of resting orders, crossing re-prices, cancels of an order placed earlier in the same batch, cancels of an order that was already finished) on fresh environments: the map submission index -> processed position must be identical for both batches wherever both reveal it (a same-batch cancel processed before its placement leaves no timestamp) and for a repeated run (non-trivial: batch with >= 2 instruction kinds). (2) uniformity campaign: for one (batch size, Env or MarketEnv<2>, generator freshly seeded per step or one continuing stream) the processed positions of N seeded steps are recovered from arrival / end timestamps and the count of each of the n! permutations (n <= 6), each (instruction, position) cell and each ordered pair must lie within the Bernstein deviation for alpha = 1e-9 divided by the number of campaigns, with a union bound over all cells; in addition, for windows of the first / last k = 3..10 processed positions whose number of outcomes K = n!/(n-k)! is large, the number of steps that repeat an earlier step's tuple of instructions at those positions must stay below an exact Chernoff limit (a shuffle that derives several swap indices from one generator word has too few distinct outcomes in such a window although every position and pair table is flat); half of each campaign's alpha goes to the cell tests and half to the window tests (non-trivial: campaign with mixed instruction kinds). Every step also checks that the positions are a bijection of 0..n.".to_string(),
     )
 }
